@@ -444,6 +444,11 @@ def check_C06(tier, replay):
                         f"history of {len(jobs)} runs: {x['what']}")
         else:
             v.violation("C06: " + x["what"], {"kind": "engine-job", "job": jb[x["run"]]}, f"run {x['run']}: {x['what']}")
+    # vacuity guard: the wire-history rule needs its 40 samples per group
+    wh = res.get("wirehist") or {}
+    for g in sorted({j["tag"]["grp"] for j in jobs if j["tag"].get("dupw")}):
+        if wh.get(g, 0) < 40:
+            v.spec_drift(f"Mon_C06 collected only {wh.get(g, 0)} share histories for group {g} (the wire-history rule needs 40)")
     ab = abit_check(v, tier, wd, rng)
     v.coverage = {
         "evaluations": len(jobs) + ab["abit_runs"], "distinct_nontrivial": res["counters"] + res["keys"] + ab["abit_calls_checked"],
@@ -454,7 +459,7 @@ def check_C06(tier, replay):
                 "returned one)",
         "samples": [{"job": jobs[0]["id"], "inputs": jobs[0]["inputs"], "tag": jobs[0]["tag"]},
                     {"job": jobs[-1]["id"], "tag": jobs[-1]["tag"]}],
-        "runs_per_input_value": N, "balance_counters": res["counters"], "global_keys_compared": res["keys"],
+        "runs_per_input_value": N, "wire_share_histories": wh, "balance_counters": res["counters"], "global_keys_compared": res["keys"],
     }
     v.coverage.update(ab)
     v.assumptions = ["first-order balance and freshness only: a subtly biased or correlated generator passes (DESIGN.md 5)"]
